@@ -34,6 +34,12 @@ type Topo struct {
 	Pools   []*PoolCfg
 	Nodes   []Node
 	cursor  map[int]int
+	dropped []droppedRange // ranges taken out by a shrink, most recent last (a later reload may bring one back)
+}
+
+type droppedRange struct {
+	pool *PoolCfg
+	r    [2]int
 }
 
 func podIP(sub, host int) string { return fmt.Sprintf("192.168.%d.%d", sub, host) }
@@ -147,8 +153,27 @@ func (t *Topo) Snapshot() ConfSet {
 }
 
 // mutate changes the configuration (for reload operations). Returns a description.
-func (t *Topo) mutate(c *core.Choices) string {
-	switch c.Choose(5) {
+func (t *Topo) mutate(c *core.Choices, restore bool, hot map[string]bool) string {
+	n := 5
+	if restore {
+		n = 6 // profiles without the restore step keep their choice stream
+	}
+	k := c.Choose(n)
+	if restore && len(t.dropped) > 0 && c.Prob(1, 2) {
+		k = 5 // an edit that took a range out is usually noticed and undone soon
+	}
+	switch k {
+	case 5: // restore: the range dropped last comes back (an administrator undoing a mistaken edit); allocations of
+		// running pods in it were dropped meanwhile and have to be adopted again
+		if n := len(t.dropped); n > 0 {
+			d := t.dropped[n-1]
+			t.dropped = t.dropped[:n-1]
+			d.pool.ranges = append(d.pool.ranges, d.r)
+			sort.Slice(d.pool.ranges, func(a, b int) bool { return d.pool.ranges[a][0] < d.pool.ranges[b][0] })
+			d.pool.rebuild()
+			return "restore"
+		}
+		return "restore-skip"
 	case 4: // change the mask of a node subnet (every node stays inside): the node subnets of the pools change
 		i := c.Choose(len(t.Subnets))
 		old := t.Subnets[i]
@@ -181,9 +206,35 @@ func (t *Topo) mutate(c *core.Choices) string {
 		p.rebuild()
 		return "grow"
 	case 1: // shrink: drop a range
+		if restore && len(hot) > 0 && c.Prob(2, 3) {
+			// prefer a range some bound pod has its address in (the record of a running pod is lost)
+			type cand struct {
+				p *PoolCfg
+				i int
+			}
+			var cs []cand
+			for _, p := range t.Pools {
+				for i, r := range p.ranges {
+					for h := r[0]; h <= r[1]; h++ {
+						if hot[podIP(p.sub, h)] {
+							cs = append(cs, cand{p, i})
+							break
+						}
+					}
+				}
+			}
+			if len(cs) > 0 {
+				x := cs[c.Choose(len(cs))]
+				t.dropped = append(t.dropped, droppedRange{x.p, x.p.ranges[x.i]})
+				x.p.ranges = append(x.p.ranges[:x.i], x.p.ranges[x.i+1:]...)
+				x.p.rebuild()
+				return "shrink-hot"
+			}
+		}
 		p := t.Pools[c.Choose(len(t.Pools))]
 		if len(p.ranges) > 0 {
 			i := c.Choose(len(p.ranges))
+			t.dropped = append(t.dropped, droppedRange{p, p.ranges[i]})
 			p.ranges = append(p.ranges[:i], p.ranges[i+1:]...)
 			p.rebuild()
 		}
